@@ -42,9 +42,10 @@ TRIAGE = [
     (r'FileSpec::collision_free_infix_for_rotated_file$', 'unwrap', r'Option::unwrap<std::path::PathBuf>', 1, 'INV', 'pop() dominated by !is_empty()'),
     (r'FileSpec::collision_free_infix_for_rotated_file$', 'unwrap', r'Option::unwrap<std::ffi::OsStr>', 2, 'INV', 'element of a directory listing has a file stem / file name'),
     (r'FileSpec::collision_free_infix_for_rotated_file$', 'unwrap', r'Option::unwrap<usize>', 1, 'INV', 'the sibling filter requires the substring'),
-    (r'FileSpec::collision_free_infix_for_rotated_file$', 'assert', r'overflow:Add', 3, 'INV', 'small constants added to an offset'),
-    (r'FileSpec::collision_free_infix_for_rotated_file$', 'index', r'String', 1, 'F', 'F10: 4 bytes after ".restart-" of a possibly foreign file name', 'F10-restart-sibling-fixed-slice'),
-    (r'FileSpec::collision_free_infix_for_rotated_file$', 'unwrap', r'Result::unwrap<usize>', 1, 'F', 'F10: parse of those bytes', 'F10-restart-sibling-parse-unwrap'),
+    (r'FileSpec::collision_free_infix_for_rotated_file$', 'assert', r'overflow:Add', 5, 'INV', 'small constants added to an offset'),
+    (r'FileSpec::collision_free_infix_for_rotated_file$', 'index', r'String', 1, 'INV',
+     'the sibling filter admits only names with four ASCII digits after ".restart-" (guard checked by restart_sibling_guard; F10 fixed)'),
+    (r'FileSpec::collision_free_infix_for_rotated_file$', 'unwrap', r'Result::unwrap<usize>', 1, 'INV', 'parse of those four ASCII digits (same guard)'),
     (r'^parameters::file_spec::FileSpec::default_basename$', 'unwrap', r'.*', 1, 'INV', 'argv[0] without file name: environment, outside the quantifier'),
     (r'FileSpec::filter_files$', 'unwrap', r'Option::unwrap<std::ffi::OsStr>', 1, 'INV', 'listing element has a file stem'),
     (r'FileSpec::filter_files$', 'index', r'str', 1, 'INV', '`..end` with end from find() on the same string'),
@@ -64,8 +65,7 @@ TRIAGE = [
     (r'start_async_fs_writer$', 'unwrap', r'Result::unwrap<std::sync::MutexGuard', 1, 'POI', 'state mutex'),
     (r'timestamps::timestamp_from_ts_infix$', 'unwrap', r'Option::unwrap<chrono::NaiveDateTime>', 1, 'INV', 'and_hms_opt with constant arguments'),
     (r'timestamps::ts_infix_from_path$', 'unwrap', r'Option::unwrap<usize>', 1, 'INV', 'the string was built from that infix'),
-    (r'timestamps::ts_infix_from_path$', 'assert', r'overflow:Add', 1, 'INV', 'constant added to an offset'),
-    (r'timestamps::ts_infix_from_path$', 'index', r'\[u8\]', 1, 'F', 'F9: fixed 20-byte slice, custom timestamp formats may be shorter', 'F9-ts-infix-fixed-20-byte-slice'),
+    (r'timestamps::ts_infix_from_path$', 'index', r'^str$', 1, 'INV', '`..end` with end from find() on the same string (F9 fixed: no fixed-length slice)'),
     (r'StateHandle::write$', 'unwrap', r'Result::expect<std::sync::MutexGuard', 2, 'POI', 'state mutex'),
     (r'list_and_cleanup::start_cleanup_thread$', 'assert', r'overflow:Mul', 1, 'INV', 'constant stack size 512 * 1024'),
     # class rule (any function): taking a std lock and unwrapping the LockResult fails only on a poisoned lock; poisoning needs a panic
@@ -167,6 +167,10 @@ def run(R, ctx):
     R.check('R10.1', 'MultiWriter-only-in-PrimaryWriter', makers == ['primary_writer::multi_writer::MultiWriter::new'], "MultiWriter is built only by MultiWriter::new",
             f"MultiWriter is constructed in {makers}", where=None)
 
+    R.check('R10.1', 'restart-sibling-guard', restart_sibling_guard(ctx), "the .restart- sibling filter requires four ASCII digits behind the token",
+            "collision_free_infix_for_rotated_file slices and parses the four bytes after `.restart-` of a listed file without the sibling filter "
+            "having checked that they are four ASCII digits: a foreign file `<infix>.restart-xy.<suffix>` makes the next rotation / start panic under the state lock",
+            where='src/parameters/file_spec.rs')
     user_callbacks(R, ctx)
     lock_order(R, ctx)
     # R10.5 / R10.6
@@ -182,6 +186,20 @@ def run(R, ctx):
                 R.bad('R10.6', f"{root_fn(p_)}|{n.split('::')[-1]}", f"panicking RefCell borrow in {p_} (recursive logging would panic instead of using the fallback)", where=f.bodies[p_].loc(bb))
     R.ok('R10.6', 'no-panicking-borrow', 'only try_borrow_mut is used')
     loops(R, ctx, reach)
+
+
+def restart_sibling_guard(ctx):
+    """discharges the slice / parse().unwrap() of collision_free_infix_for_rotated_file: a filter over the listed siblings (closure or
+    helper reached from the function) takes the bytes behind the token with a checked `str::get` and tests them with is_ascii_digit"""
+    f, cg = ctx.f, ctx.cg
+    b = ctx.body(r'^parameters::file_spec::FileSpec::collision_free_infix_for_rotated_file$')
+    scope = [x for x in cg.reachable([b.path], spawn=False) if x in f.bodies and x != b.path and
+             (x.startswith(b.path + '::{closure') or only_called_from(cg, root_fn(x), {b.path}))]
+    names = {callee_name(t) for x in scope for _, t in f.bodies[x].calls()}
+    digit = any(re.search(r'is_ascii_digit$', n) for n in names)
+    checked_get = any(re.search(r'str>?::get$', n) for n in names)
+    filt = any(re.search(r'Iterator>?::filter$', callee_name(t)) for _, t in b.calls())
+    return digit and checked_get and filt
 
 
 def user_callbacks(R, ctx):
